@@ -1,33 +1,46 @@
 /-
-  C13, rows 1 / 8 / 9 for the REAL number printer.  `Props/C13.lean` proves `parseNet (exportNet n) = ok (canon (quantNet n))`
-  and the fixed point for an abstract `Codec.Printer` law (witnessed there by the toy `decCodec` on ℕ); here the law is
-  PROVED for what `export_xml` does — `to_xmlstr(val, prec)` = `ostr << std::setprecision(prec) << std::defaultfloat << val`
-  (`%.{prec}g`), read back by `CoreParser::toDouble` (`IsFloat` + `atof`) — modelled over ℚ by `Model/DecimalCodec.lean`
-  (`fmtGen`, `rdDecimal`) and tied to libstdc++ by the `codec` stream.
+  C13, rows 1 / 8 / 9 for the REAL number printers.  `Props/C13.lean` proves `parseNet (exportNet n) = ok (canon (quantNet n))`
+  and the fixed point for an abstract `Codec.PrinterOn D` law (witnessed there by the toy `decCodec` on ℕ); here the law is
+  PROVED for what `export_xml` does:
+    * numbers — `to_xmlstr(val, prec)` = `ostr << std::setprecision(prec) << std::defaultfloat << val` (`%.{prec}g`), read back
+      by `CoreParser::toDouble` (`IsFloat` + `atof`): `Model/DecimalCodec.lean` (`fmtGen`, `rdDecimal`), tied to libstdc++ by
+      the `codec` stream;
+    * angular values of a document in degrees (`angles="360"`) — `str_val = GNU_gama::gon2deg(m, 0, 4)`, read back by
+      `deg2gon` (tried before `toDouble`): C18's models `Gama.Angles.gon2deg` / `deg2gon` (the formatter regenerated from the
+      tree, tied by C18's streams) — since round 6 the REAL pair, no stand-in.  Its laws hold on the domain
+      `DegDom g := 0 ≤ g ∧ g·0.9 < 2³¹−1` (no sign is printed; `int(gon·0.9)` must exist); the theorems ask the angular
+      values of a document in degrees to be there (`Net.AngIn DegDom`; gama keeps them in [0, 400) gon).
 
   Parameters, and why: `p` — `export_xml` prints with 8, 16 or 17 digits by site, the network model has one `fmt`;
-  `m` — the tie rule (glibc: `RMode.halfEven`); `sd` — `apriori_m_0() * sqrt(dist)` is not rational; `pd` — precision
-  of the STAND-IN for the sexagesimal text (see `Lemmas/DecimalCodecC13.lean`: the statements are about the real
-  printer for documents in gons).  Over ℚ `*0.324`, `*(1/0.324)` and the latitude unit conversion are exact inverses,
-  so `fromSec_toSec` holds as stated; for doubles only the weakened `q (toSec (fromSec (q x))) = q x` can hold
-  (`C13_sec_law_after_quantisation`; measured by C13's own streams).
+  `m` — the tie rule (glibc: `RMode.halfEven`); `sd` — `apriori_m_0() * sqrt(dist)` is not rational.  Over ℚ `*0.324`,
+  `*(1/0.324)` and the latitude unit conversion are exact inverses, so `fromSec_toSec` holds as stated; for doubles only
+  the weakened `q (toSec (fromSec (q x))) = q x` can hold (`C13_sec_law_after_quantisation`; measured by C13's own streams).
 -/
 import Gama.Lemmas.DecimalCodecC13
 namespace Gama.Props.C13Codec
 open Gama.Export Gama.Dec Gama.Gen.GkfAttrs Gama.Gen.GkfDoc
 
-/-- the real printer satisfies `Codec.Printer` with `q = ` rounding to `p` significant digits: all sixteen fields, among
-    them `isZero_q` (a non-zero height never prints as zero — true for `%g`, FALSE for a fixed-decimals printer, see
-    `C12Codec.C12_fixed_quantisation`), `pos_q`, `q_neg`, `fmt_q` -/
-theorem C13_real_codec_printer (m : RMode) (p pd : Nat) (sd : ℚ → ℚ → ℚ) :
-    (realCodec m p pd sd).Printer (roundSig m (sigDigits p)) (roundSig m (sigDigits pd)) :=
-  realCodec_printer m p pd sd
+/-- the real printers satisfy `Codec.PrinterOn DegDom` with `q = ` rounding to `p` significant digits and `qd = degQ`
+    (the value `deg2gon` reads from the text `gon2deg(·, 0, 4)`): all sixteen fields, among them `isZero_q` (a non-zero
+    height never prints as zero — true for `%g`, FALSE for a fixed-decimals printer, see `C12Codec.C12_fixed_quantisation`),
+    `pos_q`, `q_neg`, `fmt_q`, `rdDeg_fmt` (a `%g` numeral is never taken for a sexagesimal text) and, on `DegDom`, the
+    two laws of the sexagesimal text -/
+theorem C13_real_codec_printer (m : RMode) (p : Nat) (sd : ℚ → ℚ → ℚ) :
+    (realCodec m p sd).PrinterOn DegDom (roundSig m (sigDigits p)) degQ :=
+  realCodec_printerOn m p sd
 
-/-- hence the exact law on the representable numbers (those with at most `p` significant digits) -/
-theorem C13_real_codec_lawful (m : RMode) (p pd : Nat) (sd : ℚ → ℚ → ℚ) :
-    (realCodec m p pd sd).LawfulOn (fun x => roundSig m (sigDigits p) x = x) ∧
-    (realCodec m p pd sd).DegLawfulOn (fun x => roundSig m (sigDigits pd) x = x) :=
-  ⟨(realCodec_printer m p pd sd).lawfulOn, (realCodec_printer m p pd sd).degLawfulOn⟩
+/-- the domain is needed: without it the law is false for the real sexagesimal printer, whatever the quantisations
+    (2.4·10⁹ gon prints 2 160 000 000 degrees, which `deg2gon` refuses) -/
+theorem C13_real_codec_needs_domain (m : RMode) (p : Nat) (sd : ℚ → ℚ → ℚ) (q qd : ℚ → ℚ) :
+    ¬ (realCodec m p sd).Printer q qd :=
+  realCodec_not_printer m p sd q qd
+
+/-- hence the exact law on the representable numbers (those with at most `p` significant digits) and the representable
+    angles of the domain (those with at most four decimals of the sexagesimal second) -/
+theorem C13_real_codec_lawful (m : RMode) (p : Nat) (sd : ℚ → ℚ → ℚ) :
+    (realCodec m p sd).LawfulOn (fun x => roundSig m (sigDigits p) x = x) ∧
+    (realCodec m p sd).DegLawfulOn (fun x => DegDom x ∧ degQ x = x) :=
+  ⟨(realCodec_printerOn m p sd).lawfulOn, (realCodec_printerOn m p sd).degLawfulOn⟩
 
 /-- the size of the quantisation: half a unit of the `p`-th significant digit (relative ≤ ½·10^(1−p)), the value read
     back re-prints as itself, signs are symmetric, zero only for zero -/
@@ -39,37 +52,50 @@ theorem C13_real_quantisation (m : RMode) (p : Nat) (x : ℚ) (hx : x ≠ 0) :
   ⟨roundSig_err m _ (sigDigits_pos p) x hx, roundSig_idem m m _ (sigDigits_pos p) x, roundSig_neg m _ x,
    fun h => hx ((roundSig_eq_zero_iff m _ (sigDigits_pos p) x).mp h)⟩
 
-/-- the document does not see the difference between a network and its quantisation -/
-theorem C13_export_quantised_real (m : RMode) (p pd : Nat) (sd : ℚ → ℚ → ℚ) (n : Net ℚ) :
-    exportNet (realCodec m p pd sd) (quantNet (realCodec m p pd sd) (roundSig m (sigDigits p)) (roundSig m (sigDigits pd)) n)
-      = exportNet (realCodec m p pd sd) n :=
-  exportNet_quant (realCodec_printer m p pd sd) n
+/-- the sexagesimal quantisation on its domain: the text `gon2deg(g, 0, 4)` exists, is read back by `deg2gon` as `degQ g`,
+    `degQ g` is within half a unit of the fourth decimal of the second (1.55·10⁻⁸ gon) of `g`, and prints as the same text
+    (C18's string theorem + the projection `gon2deg_degQ`) -/
+theorem C13_real_sexagesimal_quantisation (g : ℚ) (hD : DegDom g) :
+    (∃ str, Angles.gon2deg g 0 4 = some str ∧ (Angles.deg2gon str : Option ℚ) = some (degQ g)) ∧
+    |degQ g - g| ≤ (1 / 2) / (10 : ℚ) ^ 4 / 3600 / (9 / 10) ∧
+    Angles.gon2deg (degQ g) 0 4 = Angles.gon2deg g 0 4 :=
+  ⟨deg2gon_gon2deg_degQ g hD, (sexagesimal_read_back g hD.1 hD.2).2, gon2deg_degQ g hD⟩
 
-/-- **row 1 for the real printer**: reading the export gives the network with every number rounded to `p` significant
-    digits, provided the rounded values still pass the parser's guards (`Net.WF` of the quantised network, decidable) -/
-theorem C13_roundtrip_network_real (m : RMode) (p pd : Nat) (sd : ℚ → ℚ → ℚ) (impl : Kind → ℚ) (par0 : Params ℚ) (n : Net ℚ)
-    (hw : (quantNet (realCodec m p pd sd) (roundSig m (sigDigits p)) (roundSig m (sigDigits pd)) n).WF (realCodec m p pd sd)
-      (fun x => roundSig m (sigDigits p) x = x) (fun x => roundSig m (sigDigits pd) x = x)) :
-    parseNet (realCodec m p pd sd) impl par0 (exportNet (realCodec m p pd sd) n)
-      = .ok (canon (quantNet (realCodec m p pd sd) (roundSig m (sigDigits p)) (roundSig m (sigDigits pd)) n)) :=
-  parse_export_net_printer (realCodec_printer m p pd sd) impl par0 n hw
+/-- the document does not see the difference between a network and its quantisation (gons and degrees) -/
+theorem C13_export_quantised_real (m : RMode) (p : Nat) (sd : ℚ → ℚ → ℚ) (n : Net ℚ) (hD : n.AngIn DegDom) :
+    exportNet (realCodec m p sd) (quantNet (realCodec m p sd) (roundSig m (sigDigits p)) degQ n)
+      = exportNet (realCodec m p sd) n :=
+  exportNet_quant (realCodec_printerOn m p sd) n hD
 
-/-- **row 9 for the real printer**: exporting what was read gives the same document — a fixed point from the first
-    round on, although the numbers were rounded -/
-theorem C13_fixed_point_network_real (m : RMode) (p pd : Nat) (sd : ℚ → ℚ → ℚ) (impl : Kind → ℚ) (par0 : Params ℚ) (n : Net ℚ)
-    (hw : (quantNet (realCodec m p pd sd) (roundSig m (sigDigits p)) (roundSig m (sigDigits pd)) n).WF (realCodec m p pd sd)
-      (fun x => roundSig m (sigDigits p) x = x) (fun x => roundSig m (sigDigits pd) x = x)) :
-    (parseNet (realCodec m p pd sd) impl par0 (exportNet (realCodec m p pd sd) n)).map (exportNet (realCodec m p pd sd))
-      = .ok (exportNet (realCodec m p pd sd) n) := by
-  rw [parse_export_net_printer (realCodec_printer m p pd sd) impl par0 n hw]
-  simp [Except.map, exportNet_canon, exportNet_quant (realCodec_printer m p pd sd) n]
+/-- **row 1 for the real printers, `angles="400"` and `angles="360"`**: reading the export gives the network with every
+    number rounded to `p` significant digits and — in degrees — every angular value rounded to four decimals of the
+    sexagesimal second, provided the angular values of a document in degrees are in `DegDom` and the rounded values still
+    pass the parser's guards (`Net.WF` of the quantised network, decidable) -/
+theorem C13_roundtrip_network_real (m : RMode) (p : Nat) (sd : ℚ → ℚ → ℚ) (impl : Kind → ℚ) (par0 : Params ℚ) (n : Net ℚ)
+    (hD : n.AngIn DegDom)
+    (hw : (quantNet (realCodec m p sd) (roundSig m (sigDigits p)) degQ n).WF (realCodec m p sd)
+      (fun x => roundSig m (sigDigits p) x = x) (fun x => DegDom x ∧ degQ x = x)) :
+    parseNet (realCodec m p sd) impl par0 (exportNet (realCodec m p sd) n)
+      = .ok (canon (quantNet (realCodec m p sd) (roundSig m (sigDigits p)) degQ n)) :=
+  parse_export_net_printer (realCodec_printerOn m p sd) impl par0 n hD hw
+
+/-- **row 9 for the real printers**: exporting what was read gives the same document — a fixed point from the first
+    round on, although the numbers were rounded.  Gons and degrees. -/
+theorem C13_fixed_point_network_real (m : RMode) (p : Nat) (sd : ℚ → ℚ → ℚ) (impl : Kind → ℚ) (par0 : Params ℚ) (n : Net ℚ)
+    (hD : n.AngIn DegDom)
+    (hw : (quantNet (realCodec m p sd) (roundSig m (sigDigits p)) degQ n).WF (realCodec m p sd)
+      (fun x => roundSig m (sigDigits p) x = x) (fun x => DegDom x ∧ degQ x = x)) :
+    (parseNet (realCodec m p sd) impl par0 (exportNet (realCodec m p sd) n)).map (exportNet (realCodec m p sd))
+      = .ok (exportNet (realCodec m p sd) n) := by
+  rw [parse_export_net_printer (realCodec_printerOn m p sd) impl par0 n hD hw]
+  simp [Except.map, exportNet_canon, exportNet_quant (realCodec_printerOn m p sd) n hD]
 
 /-- the law the audit proposes in place of `fromSec_toSec` (which is false for doubles): the seconds conversion is
     undone AFTER quantisation.  Over ℚ it follows from the exact law; it is the form that can hold for `double` -/
-theorem C13_sec_law_after_quantisation (m : RMode) (p pd : Nat) (sd : ℚ → ℚ → ℚ) (x : ℚ) :
-    roundSig m (sigDigits p) ((realCodec m p pd sd).toSec ((realCodec m p pd sd).fromSec (roundSig m (sigDigits p) x)))
+theorem C13_sec_law_after_quantisation (m : RMode) (p : Nat) (sd : ℚ → ℚ → ℚ) (x : ℚ) :
+    roundSig m (sigDigits p) ((realCodec m p sd).toSec ((realCodec m p sd).fromSec (roundSig m (sigDigits p) x)))
       = roundSig m (sigDigits p) x := by
-  rw [(realCodec_printer m p pd sd).toSec_fromSec, roundSig_idem m m _ (sigDigits_pos p) x]
+  rw [(realCodec_printerOn m p sd).toSec_fromSec, roundSig_idem m m _ (sigDigits_pos p) x]
 
 /-! ## non-vacuity -/
 
@@ -85,22 +111,62 @@ example : fmtGenL .halfEven 4 (123456789 / 100000000) = "1.235".toList := by dec
 example : fmtGenL .halfEven 4 (99996 / 100000) = "1".toList ∧ roundSig .halfEven 4 (99996 / 100000) = 1 := by decide +kernel
 -- the integer codec of `cov-band`
 example : fmtIntL (-1) = "-1".toList ∧ rdInt "-1" = some (-1) ∧ rdInt "12" = some 12 := by decide +kernel
--- a plain number is not read as a sexagesimal text, a sexagesimal text is read with its own rounding
-example : (realCodec .halfEven 8 4 (fun s d => s * d)).rdDeg ((realCodec .halfEven 8 4 (fun s d => s * d)).fmt (1 / 3)) = none :=
-  (realCodec_printer .halfEven 8 4 _).rdDeg_fmt _
+-- a plain number is not read as a sexagesimal text (not even `1e-05` or `-5`), a sexagesimal text is read with its own rounding
+example : (realCodec .halfEven 8 (fun s d => s * d)).rdDeg ((realCodec .halfEven 8 (fun s d => s * d)).fmt (1 / 3)) = none :=
+  (realCodec_printerOn .halfEven 8 _).rdDeg_fmt _
+set_option maxRecDepth 100000 in
+example : (Angles.deg2gon (fmtGen .halfEven 8 (1 / 100000)) : Option ℚ) = none ∧ fmtGen .halfEven 8 (1 / 100000) = "1e-05" := by
+  decide +kernel
+-- the sexagesimal text of 123.4567 gon = 111.11103° and of 123.45678912 gon (rounded in the fourth decimal of the second);
+-- seconds that round to 60 are carried (F14 repaired); the value read back
+set_option maxRecDepth 100000 in
+example : Angles.gon2deg (1234567 / 10000 : ℚ) 0 4 = some "111-06-39.7080" ∧
+    Angles.gon2deg (12345678912 / 100000000 : ℚ) 0 4 = some "111-06-39.9967" ∧
+    Angles.gon2deg (3999999999999 / 10000000000 : ℚ) 0 4 = some "360-00-00.0000" := by decide +kernel
+set_option maxRecDepth 100000 in
+example : degQ (12345678912 / 100000000) = 3999999967 / 32400000 ∧ degQ (12345678912 / 100000000) ≠ 12345678912 / 100000000 ∧
+    DegDom (12345678912 / 100000000) := by decide +kernel
+-- outside the domain: no sign is printed — the text of −100 gon is read as +100 gon
+set_option maxRecDepth 100000 in
+example : Angles.gon2deg (-100 : ℚ) 0 4 = some " 90-00-00.0000" ∧ degQ (-100) = 100 ∧ ¬ DegDom (-100) := by decide +kernel
 -- a network with inconsistent axes, constrained / unused points, a vectors cluster with covariances and numbers the
 -- printer rounds meets the side condition; the printer theorems apply to it
 set_option maxRecDepth 100000 in
-example : (quantNet (realCodec .halfEven 8 8 (fun s d => s * d)) (roundSig .halfEven 8) (roundSig .halfEven 8) qNet).WF
-    (realCodec .halfEven 8 8 (fun s d => s * d)) (fun x => roundSig .halfEven 8 x = x) (fun x => roundSig .halfEven 8 x = x) := by
+example : (quantNet (realCodec .halfEven 8 (fun s d => s * d)) (roundSig .halfEven 8) degQ qNet).WF
+    (realCodec .halfEven 8 (fun s d => s * d)) (fun x => roundSig .halfEven 8 x = x) (fun x => DegDom x ∧ degQ x = x) := by
   decide +kernel
 set_option maxRecDepth 100000 in
-example : parseNet (realCodec .halfEven 8 8 (fun s d => s * d)) (fun _ => 7) qNet.par
-      (exportNet (realCodec .halfEven 8 8 (fun s d => s * d)) qNet)
-    = .ok (canon (quantNet (realCodec .halfEven 8 8 (fun s d => s * d)) (roundSig .halfEven 8) (roundSig .halfEven 8) qNet)) :=
-  C13_roundtrip_network_real .halfEven 8 8 _ _ _ qNet (by decide +kernel)
+example : parseNet (realCodec .halfEven 8 (fun s d => s * d)) (fun _ => 7) qNet.par
+      (exportNet (realCodec .halfEven 8 (fun s d => s * d)) qNet)
+    = .ok (canon (quantNet (realCodec .halfEven 8 (fun s d => s * d)) (roundSig .halfEven 8) degQ qNet)) :=
+  C13_roundtrip_network_real .halfEven 8 _ _ _ qNet (Net.angIn_gons _ _ rfl) (by decide +kernel)
 -- … and the quantisation is not the identity on it
-example : (quantNet (realCodec .halfEven 8 8 (fun s d => s * d)) (roundSig .halfEven 8) (roundSig .halfEven 8) qNet).points.map
+example : (quantNet (realCodec .halfEven 8 (fun s d => s * d)) (roundSig .halfEven 8) degQ qNet).points.map
       (fun p => p.xy) ≠ qNet.points.map (fun p => p.xy) := by decide +kernel
+
+-- `angles="360"`: the same network written in degrees, with an `<obs>` cluster (direction, distance, angle, zenith angle
+-- with a full covariance matrix): angular values as sexagesimal text, standard deviations and covariance rows in
+-- seconds.  The angular values are in the domain, the quantised network meets the side condition, the theorems apply,
+-- the sexagesimal quantisation is not the identity on it
+example : qNetDeg.par.gons = false ∧ qNetDeg.AngIn DegDom := by decide +kernel
+set_option maxRecDepth 100000 in
+example : (quantNet (realCodec .halfEven 8 (fun s d => s * d)) (roundSig .halfEven 8) degQ qNetDeg).WF
+    (realCodec .halfEven 8 (fun s d => s * d)) (fun x => roundSig .halfEven 8 x = x) (fun x => DegDom x ∧ degQ x = x) := by
+  decide +kernel
+set_option maxRecDepth 100000 in
+example : parseNet (realCodec .halfEven 8 (fun s d => s * d)) (fun _ => 7) qNetDeg.par
+      (exportNet (realCodec .halfEven 8 (fun s d => s * d)) qNetDeg)
+    = .ok (canon (quantNet (realCodec .halfEven 8 (fun s d => s * d)) (roundSig .halfEven 8) degQ qNetDeg)) :=
+  C13_roundtrip_network_real .halfEven 8 _ _ _ qNetDeg (by decide +kernel) (by decide +kernel)
+set_option maxRecDepth 100000 in
+example : (parseNet (realCodec .halfEven 8 (fun s d => s * d)) (fun _ => 7) qNetDeg.par
+      (exportNet (realCodec .halfEven 8 (fun s d => s * d)) qNetDeg)).map (exportNet (realCodec .halfEven 8 (fun s d => s * d)))
+    = .ok (exportNet (realCodec .halfEven 8 (fun s d => s * d)) qNetDeg) :=
+  C13_fixed_point_network_real .halfEven 8 _ _ _ qNetDeg (by decide +kernel) (by decide +kernel)
+set_option maxRecDepth 100000 in
+example : (quantNet (realCodec .halfEven 8 (fun s d => s * d)) (roundSig .halfEven 8) degQ qNetDeg).clusters.map
+      (fun c => match c with | .obs sp _ => sp.obs.map (·.val) | _ => [])
+    = [[], [3999999967 / 32400000, 50000500 / 100000, 2345678 / 10000, 100]] := by
+  decide +kernel
 
 end Gama.Props.C13Codec
